@@ -1,8 +1,8 @@
 #!/verif/.venv/bin/python
 # Replay of a solver counterexample against the unmodified code (no shims).
-# property=C04 kernel=param label=abstract:built_identical_timeline
+# property=C04 kernel=roundtrip label=abstract:roundtrip_completes
 import sys
 sys.path[:0] = ['/repo' + "/pulser-core", '/repo' + "/pulser-simulation", "/verif"]
 from symx.replay import replay
-sys.exit(replay(check='checks.c04', kernel='param', shape={'program': 'mappable_shift_all', 'codec': 'abstract'},
-                assignment={'v_a0': '513/1024'}, label='abstract:built_identical_timeline'))
+sys.exit(replay(check='checks.c04', kernel='roundtrip', shape={'program': 'xy', 'codec': 'abstract', 'kwmode': True},
+                assignment={'p0': 0, 's0': 0, 's1': 29, 'bx': '5119/1024', 'bz': '635/16', 'a0': '1/1024', 'd0': -200000000, 'a1': '1/1024'}, label='abstract:roundtrip_completes'))
